@@ -261,6 +261,14 @@ def constraint_shapes(seed, quick):
     for i, tr in enumerate(sizes):
         k = kinds[i % len(kinds)]
         m.add("S%d" % i, Type(k, size_c=Constraint([(tr, False, None)])))
+    # permitted alphabets checked through a table (more than one range / a list) whose highest character sits on a
+    # multiple of 16 (' ', '0', '@', 'P', '`', 'p'), next to controls that do not
+    alphas = [("IA5String", U(R("A", "P"), R("0", "9"))), ("IA5String", ("val", " 0")), ("VisibleString", U(("val", "@"), R("0", "9"))),
+              ("PrintableString", U(R("a", "p"), ("val", "A"))), ("IA5String", U(R("0", "9"), R("A", "F"))), ("IA5String", U(("val", "`"), R("a", "c"))),
+              ("VisibleString", ("val", "0P")), ("IA5String", U(R(" ", " "), R("0", "0"))), ("PrintableString", U(R("a", "o"), R("0", "8")))]
+    for i, (k, tr) in enumerate(alphas):
+        m.add("F%d" % i, Type(k, alpha_c=Constraint([(tr, False, None)])))
+    m.add("FH", Type("SEQUENCE", comps=[Comp("f%d" % i, Type(k, alpha_c=Constraint([(tr, False, None)])), optional=(i % 2 == 1)) for i, (k, tr) in enumerate(alphas[:4])]))
     m.add("Small", Type("INTEGER", value_c=Constraint.simple(0, 5)))
     m.add("Word", Type("IA5String", size_c=Constraint.simple(1, 3), alpha_c=Constraint([(("range", "a", "f"), False, None)])))
     m.add("Bag", Type("SET OF", elem=Type("REF", ref="Small")))
